@@ -315,8 +315,9 @@ func formatInts(vals []int) string {
 func formatRunes(runes []rune) string {
 	var b bytes.Buffer
 
+	// Each rune is written as a Go rune literal (quotes, backslashes, control and non-printable characters are escaped).
 	for _, r := range runes {
-		fmt.Fprintf(&b, "'%c', ", r)
+		fmt.Fprintf(&b, "%q, ", r)
 	}
 
 	if len(runes) > 0 {
